@@ -4014,10 +4014,19 @@ func (d *AuthenticatedGossiper) validateFundingTransaction(_ context.Context,
 	)
 	if err != nil {
 		// Mark the edge as a zombie so we won't try to re-validate it
-		// on start up.
-		zErr := d.cfg.Graph.MarkZombieEdge(scid.ToUint64())
-		if zErr != nil {
-			return wire.OutPoint{}, 0, nil, zErr
+		// on start up. We only do so if the output the scid points to
+		// doesn't exist at all. If the output exists but doesn't pay
+		// to the announced keys, then it is this announcement that is
+		// bogus, not necessarily the scid: anyone can craft a
+		// self-consistent announcement with their own keys for the
+		// scid of a real channel. Marking the scid as a zombie (with
+		// blank keys) in that case would make us ignore the authentic
+		// announcement of the channel for good.
+		if !errors.Is(err, chanvalidate.ErrWrongPkScript) {
+			zErr := d.cfg.Graph.MarkZombieEdge(scid.ToUint64())
+			if zErr != nil {
+				return wire.OutPoint{}, 0, nil, zErr
+			}
 		}
 
 		return wire.OutPoint{}, 0, nil, fmt.Errorf("%w: %w",
